@@ -104,6 +104,7 @@ struct Outcome {
   bool completed = false;     // every call returned kOk
   Error first_error = Error::kOk;
   std::string output;         // golden-comparable output
+  std::string output_code;    // the same without anonymous labels that are neither bound nor referenced (see retry aftermath)
   uint64_t exec_result = 0;
   std::vector<Error> step_results;   // assembler / builder workloads: result of every program step
 };
@@ -114,7 +115,7 @@ gen::FuncParams func_params(const Spec& s, uint32_t i) {
   fp.seed = r.next();
   fp.live_values = uint32_t(2 + r.below(r.chance(1, 3) ? 30 : 8));
   fp.blocks = uint32_t(r.below(4));
-  fp.calls = r.chance(1, 2); fp.jump_table = r.chance(1, 2); fp.consts = r.chance(1, 2); fp.stack = r.chance(1, 2); fp.vec = r.chance(1, 2);
+  fp.calls = r.chance(1, 2); fp.jump_table = r.chance(1, 2); fp.consts = r.chance(1, 2); fp.stack = r.chance(1, 2); fp.vec = r.chance(1, 2); fp.avx = r.chance(1, 2); fp.vec_live = r.chance(1, 3) ? uint32_t(7 + r.below(14)) : 0;
   return fp;
 }
 
@@ -205,6 +206,7 @@ Outcome run_workload(const Spec& s, Env& env, int phase, bool retry_failed_call 
       if (rerr == Error::kOutOfMemory) { out.first_error = rerr; return out; }
       env.eh.reset();
       out.output = gen::snapshot(code);
+      out.output_code = gen::snapshot(code, true);
       // relocate to a fixed base and copy out
       Error relerr = code.relocate_to_base(0x10000000ull);
       if (relerr == Error::kOutOfMemory) { out.first_error = relerr; return out; }
@@ -367,7 +369,7 @@ void faulted_run(const Plan& plan, const Spec& s, const Outcome& golden, const s
   std::unique_ptr<Env> env(new Env(s));
   // Aftermath 3 (assembler workload, single fault): the call that failed is repeated on the spot and the workload goes
   // on; the final output must be the failure-free output.
-  bool retry = aftermath == 3 && s.kind == kWAsm && faults.size() == 1 && !prob_den && fail_after < 0;
+  bool retry = aftermath == 3 && (s.kind == kWAsm || s.kind == kWBuilder) && faults.size() == 1 && !prob_den && fail_after < 0;
   if (aftermath == 3 && !retry) aftermath = 0;
   Outcome o = run_workload(s, *env, 0, retry, &golden);
   if (retry) {
@@ -375,7 +377,11 @@ void faulted_run(const Plan& plan, const Spec& s, const Outcome& golden, const s
     sim::end_op();
     if (o.completed && f > 0 && o.first_error != Error::kOk) {
       sim::count("c15.probe.retried_failed_call");
-      if (o.output != golden.output) {
+      // A Builder obtains the label id from the holder before it allocates its own label node; when that allocation fails
+      // the id stays behind as a label nobody can reach (neither bound nor referenced). That is not code: for Builder
+      // workloads such orphans are left out of the comparison (and the remaining labels renumbered).
+      if (s.kind == kWBuilder && o.output != golden.output && o.output_code == golden.output_code) sim::count("c15.probe.orphan_label_after_failed_builder_new_label");
+      else if (o.output != golden.output) {
         size_t pos = 0; while (pos < o.output.size() && pos < golden.output.size() && o.output[pos] == golden.output[pos]) pos++;
         size_t ls = o.output.rfind('\n', pos); ls = ls == std::string::npos ? 0 : ls + 1;
         sim::fail("c15:retried-call-differs-from-golden", "the call that failed with error %u was repeated once memory was available and the workload completed, but its output differs from the failure-free run near:\n  retried: %.120s\n  golden:  %.120s", unsigned(o.first_error),
